@@ -630,6 +630,8 @@ impl Scenario for C05 {
         // output length: mostly small (every capacity is enumerated, cost is quadratic in L),
         // sometimes up to ~800 so that several 254-byte COBS blocks occur
         let budget = match rng.below(20) {
+            // under Miri (interpreter, ~1000x slower) only short outputs; capacities still complete
+            _ if crate::runner::small() => *rng.pick(&[3usize, 8, 20]),
             0 => 800,
             1 => 520,
             2 | 3 => 270,
@@ -638,11 +640,11 @@ impl Scenario for C05 {
             _ => 12,
         };
         let cfg = GenCfg::swarm(rng, budget);
-        let msg = if rng.chance(1, 12) {
+        let msg = if rng.chance(1, 12) && !crate::runner::small() {
             cobs_stress_msg(rng)
         } else if rng.chance(1, 6) {
             // aim the output length at the instantiated heapless capacities
-            let target = *rng.pick(&super::c05::HCAPS[1..]);
+            let target = if crate::runner::small() { rng.range(1, 20) } else { *rng.pick(&super::c05::HCAPS[1..]) };
             Msg::gen_fitting(rng, &cfg, target)
         } else {
             Msg::gen_fitting(rng, &cfg, budget)
